@@ -426,7 +426,7 @@ class C17:
     REQUIRED_REACH = ["reach.order_variation_compared", "reach.pristine_compared", "reach.render_after_same_template", "reach.render_after_same_env", "reach.clock_advanced_between",
                       "reach.twin_data", "reach.concurrent_same_template", "reach.aborted_render", "fault.cancel_landed",
                       "reach.tz_equal_instants", "reach.implicit_env", "reach.fp_checks", "fault.drop_failed",
-                      "fault.fs_errno", "reach.environment_customised"]
+                      "fault.fs_errno", "reach.environment_customised", "reach.burst"]
 
     def process_init(self):
         fork.init_zygote(evaluate_probe)
@@ -505,7 +505,7 @@ class C17:
         def gen_op():
             uid[0] += 1
             k = rng.weighted([("render", 14), ("advance", 3), ("reparse", 1.5), ("implicit", 1.5), ("env_render", 2),
-                              ("customise", 0.7)])
+                              ("customise", 0.7), ("burst", 0.5)])
             op = {"op": k, "uid": uid[0]}
             if k == "advance":
                 op["us"] = rng.choice([1, 999_999, 1_000_000, 61_000_000, 3_600_000_000, 86_400_000_000,
@@ -523,6 +523,12 @@ class C17:
             if k == "env_render":
                 op["data"] = rng.randrange(len(datas))
                 op["main"] = rng.randrange(len(envs[e]["mains"]))
+                return op
+            if k == "burst":
+                # a burst of requests: many render_async of one template in flight at the same time
+                op["data"] = rng.randrange(len(datas))
+                op["main"] = rng.randrange(len(envs[e]["mains"]))
+                op["n"] = rng.choice([8, 33, 40])
                 return op
             if k == "implicit":
                 op["data"] = rng.randrange(len(datas))
@@ -922,6 +928,37 @@ class C17:
                     removed[e] = removed[e] + [op["remove"]]
                     env_fp0[e] = fp_env(worlds[e][0])
                     bump(st, "reach.environment_customised")
+                elif k == "burst":
+                    e = op["env"]
+                    env, mains, _ = worlds[e]
+                    t = mains[op["main"]]
+                    if t[0] != "ok" or removed[e]:
+                        continue
+                    dspec = sc["datas"][op["data"]]
+                    clock0 = CLOCK.us
+                    removed0 = list(removed[e])
+                    nfb0 = len(PLAN.fired)
+
+                    async def one(j):
+                        loop.streams[asyncio.current_task().get_name()] = loop.rng.fork("burst", op["uid"], j)
+                        await loop.latency("burst.start")     # every member suspends at least once while the others start
+                        return await outcome_async(t[1].render_async(**make_data(dspec, loop)))
+                    outs = await asyncio.gather(*[loop.create_task(one(j), name="%s.b%d.%d" % (me, op["uid"], j))
+                                                  for j in range(op["n"])])
+                    bump(st, "reach.burst")
+                    if (clock0 != CLOCK.us and sens[e]) or removed[e] != removed0 or len(PLAN.fired) != nfb0:
+                        continue      # the clock moved / the environment was re-configured / a storage fault armed
+                        # by another caller landed while the burst was in flight
+                    # all members rendered the same template with the same data: one probe, and they must agree
+                    outs = [norm(o) for o in outs]
+                    if any(o != outs[0] for o in outs):
+                        odd = next(o for o in outs if o != outs[0])
+                        add("history-independence", "burst:members-differ",
+                            {"op": op, "first": _brief(outs[0]), "other": _brief(odd)})
+                        return
+                    history.append([op["uid"], "burst", op["n"], outs[0][0]])
+                    probes.append({"uid": op["uid"], "op": {**op, "op": "render", "mode": "async"}, "mode": "async",
+                                   "clock": clock0, "got": outs[0], "pos": len(probes)})
                 elif k == "env_render":
                     e = op["env"]
                     env, _, srcs = worlds[e]
